@@ -123,6 +123,9 @@ def build_engine(world, sim, yp_class, ctl, warmup=False):
             if n == 'k':
                 # dynamic facts that hold goals: ground compound terms, shared by every use of the fact
                 yp.assert_fact(yp.atom(n), [yp.functor('s', [yp.atom('b')]) if k == 0 else yp.functor('q', [])])
+            elif extra >= 20:
+                # bulk: the first argument cycles through a, b, c (calls with a bound first argument match a third of them)
+                yp.assert_fact(yp.atom(n), [yp.atom('abc'[k % 3])] + [yp.atom('dyn%d' % k) for j in range(a - 1)])
             else:
                 # every other dynamic fact has a different atom in every position (q(V,V)-style calls must fail on it cleanly)
                 yp.assert_fact(yp.atom(n), [yp.atom('dyn%d' % (k + (j if k % 2 == 0 else 0))) for j in range(a)])
